@@ -157,6 +157,12 @@ func (h *Handler) handlePropfind(w http.ResponseWriter, r *http.Request) error {
 		}
 	}
 
+	if err := propfind.Validate(); err != nil {
+		return err
+	} else if propfind.PropName == nil && propfind.AllProp == nil && propfind.Prop == nil {
+		return HTTPErrorf(http.StatusBadRequest, "webdav: request missing propname, allprop or prop element")
+	}
+
 	ms, err := h.Backend.PropFind(r, &propfind, depth)
 	if err != nil {
 		return err
@@ -173,9 +179,19 @@ func PropFindValue(value interface{}) PropFindFunc {
 	}
 }
 
-func NewPropFindResponse(path string, propfind *PropFind, props map[xml.Name]PropFindFunc) (*Response, error) {
+// Validate checks that the request selects the properties with only one of
+// propname, allprop and prop. The servers call it before they look for the
+// resources: a request which happens to report none is as invalid as any.
+func (propfind *PropFind) Validate() error {
 	if (propfind.PropName != nil && propfind.AllProp != nil) || (propfind.Prop != nil && (propfind.PropName != nil || propfind.AllProp != nil)) {
-		return nil, HTTPErrorf(http.StatusBadRequest, "webdav: request has more than one of propname, allprop and prop")
+		return HTTPErrorf(http.StatusBadRequest, "webdav: request has more than one of propname, allprop and prop")
+	}
+	return nil
+}
+
+func NewPropFindResponse(path string, propfind *PropFind, props map[xml.Name]PropFindFunc) (*Response, error) {
+	if err := propfind.Validate(); err != nil {
+		return nil, err
 	}
 
 	resp := &Response{Hrefs: []Href{Href{Path: path}}}
